@@ -171,7 +171,28 @@ var corpus = []func(o *hx.Out, k int){
 		h.gcl(4)
 		h.checkRetained(h.m.View(), true)
 	},
-	// 9: regression for bb76634 (the residual of 956252a, now repaired): a leaf at three positions, restart (the trie is re-loaded lazily, the
+	// 9: TWIN SUB-TRIES (seed C11-m7): a sub-trie (branch + extension + leaves) exists under 31…; after a
+	// restart (empty refcount map) the identical sub-trie is created under 51… — its branch / extension
+	// nodes are already in the store, their counters must go 1 -> 2 —; then one reference is removed:
+	// the nodes must survive with count 1 and the other copy must stay readable; collection, restart,
+	// the second reference removed: now they go
+	func(o *hx.Out, k int) {
+		m := newModMOn("gc", "copy")
+		defer m.Close()
+		h := newHist(o, k, "gc", m)
+		h.probes = probes("3101", "3112", "5101", "5112", "77")
+		h.block(0, B("3101=aa", "3102=bb", "3112=cc", "77=dd"))
+		h.reset()
+		h.block(1, B("5101=aa", "5102=bb", "5112=cc"))
+		h.block(2, B("3101=del", "3102=del", "3112=del"))
+		h.gc(2)
+		h.reset()
+		h.block(3, B("5101=del", "5102=del", "5112=del"))
+		h.gc(3)
+		h.block(4, B("3101=aa", "3102=bb", "3112=cc"))
+		h.checkRetained(h.m.View(), true)
+	},
+	// 10: regression for bb76634 (the residual of 956252a, now repaired): a leaf at three positions, restart (the trie is re-loaded lazily, the
 	// refcount entry of the leaf gets the STORE's slice as its bytes when the second copy is
 	// resolved: trie.go getFromStore), two copies removed in one block: updateRefCount appends the
 	// suffix to that slice and the stored counter changed (3 -> 1) before the block was committed;
@@ -185,7 +206,7 @@ var corpus = []func(o *hx.Out, k int){
 		h.block(2, B("7101=del"))
 		h.checkRetained(h.m.View(), true)
 	},
-	// 10: state jump (seed C11-m5): a module at genesis is cleaned, the sync point's trie (a leaf at
+	// 11: state jump (seed C11-m5): a module at genesis is cleaned, the sync point's trie (a leaf at
 	// three positions) restored with a persist before every node and JumpToState; the next block
 	// removes two copies and a key: in ModeGC the dropped nodes must be marked inactive with the
 	// height, the sync point's root stays readable; collection, restart, more blocks; a replica that
@@ -212,7 +233,7 @@ var corpus = []func(o *hx.Out, k int){
 		h.cmpReplica(p)
 		h.checkRetained(h.m.View(), true)
 	},
-	// 11, 12: state-sync restore of a trie with the same sub-trie at two paths, flushed to a copying
+	// 12, 13: state-sync restore of a trie with the same sub-trie at two paths, flushed to a copying
 	// persistent layer before every restoration; then copies are removed and everything is read
 	func(o *hx.Out, k int) { corpusRestore(o, k, "copy") },
 	func(o *hx.Out, k int) { corpusRestore(o, k, "bolt") },
